@@ -1,1 +1,2 @@
+pub mod c09;
 pub mod c13;
